@@ -18,6 +18,7 @@ func init() {
 			"(F2) both-modified-same: where alpha and beta agree and the ancestor differs, reconcile records Change{Path: path, New: alpha.Copy(Slim)} and then treats the ancestor's children as absent (so stale children are re-recorded rather than diffed against); " +
 			"(F3) where both sides are nil/untracked, and where one-way-safe untracks beta-only content, a nil-New ancestor change at `path` is recorded exactly when the ancestor is non-nil; " +
 			"(F4) child paths are formed with Joinable(path) whenever the ancestor, alpha or beta has contents, so ancestor changes for nested paths land at the nested path; " +
+			"(F6–F8, shared with C01.R1/R2/R6) every change the bidirectional handler plans for a side installs the OTHER side's synchronizable() content (never the unfiltered subtree) at `path`, under the overwrite guard; " +
 			"(F5) core.Apply applies every change of the list it is given — no way through an iteration of its loop is without effect (no «already equal» shortcut), insertions are copies of change.New into Apply's own copy of the tree, and a tree pointer carried across iterations is re-derived when the root is replaced. " +
 			"Not decided: Reconcile(Apply(plan)) plans nothing; convergence of endpoints; anything about real sessions.",
 		Assumptions: []string{"see C01/C05/C06 for the shared rules"},
@@ -51,6 +52,10 @@ func runC04(c *eng.Ctx) {
 	// C07.R2): a change skipped or written into a stale subtree leaves the
 	// ancestor behind the endpoints, and the next cycle is not a fixpoint.
 	c05Apply(c, "F5")
+
+	// F6/F7: what is planned for a side is the other side's synchronizable
+	// content, and only where that side may be overwritten (shared with C01).
+	c01Planner(c, "F6", "F7", "F8")
 
 	// F2/F3: ancestor emissions in reconcile.
 	nBoth, nNil := 0, 0
